@@ -1,12 +1,558 @@
-//! C04 — stub (not built yet).
+//! C04 — IVP solutions converge to the true solution as tolerance or step shrinks.
+//! Closed-form problems (G-closed), tolerance ladders 1e-3..1e-10 (Euler: step ladders), complex
+//! vs equivalent real system, dynamic vs static dimension.
+
+use crate::checks::c02::k_const;
+use crate::gen::ivp::dtmax_for;
+use crate::ivpdrv::*;
+use crate::json::J;
+use crate::refmodel::schemes::{dist2, norm2};
 use crate::report::*;
+use crate::rng::{CaseHash, Rng};
+
+const EPS: f64 = f64::EPSILON;
 
 pub fn meta() -> CheckMeta {
-    CheckMeta { id: "C04", level: "exploration", rule: "stub".into(), assumptions: vec![], exhaustive: false, stuck_is_violation: false }
+    CheckMeta {
+        id: "C04",
+        level: "exploration",
+        rule: "cases: (real) stacks of 1-4 scalar closed-form problems (y'=ly, y'=a(t)y with trigonometric a, y'=-2sty, logistic, y'=y^2 cos t) mixed by a random orthogonal matrix, and y'=Ay with A = Q blockdiag(decay-rotation blocks) Q^T; (complex) y'=Ay, A = U diag(l_j) U^H, l_j complex, dimension 1-2, solved as Complex<f64> and as the real system of dimension 2n. Each case is a ladder: tolerances 1e-3,...,1e-10 with dt_max tied to the tolerance as in C02 (Euler: steps h, h/2, ..., h/64), every item of every rung compared with the closed form; plus a static-vs-dynamic run pair. Non-trivial: a ladder whose worst error decreases by >= 10x from the loosest to the tightest rung; distinct = hash of (solver, problem, span)".into(),
+        assumptions: vec![
+            "bound per item: K_s tol (e^{L (t-t0)} - 1)/L + floor for RK/Adams, K_s tol i e^{L (t-t0)} + floor for the i-th item of a BDF path, K_s as in C02; Euler: 1.05 (h M2 / 2L)(e^{L (t-t0)} - 1) + floor with M2 = max |y''| from the closed form".into(),
+            "L is the Lipschitz constant of the constructed right-hand side on the solution's range; L T <= 3".into(),
+            "solves that end in an Err item or exhaust the budget are C05's statement: the rung is inconclusive".into(),
+        ],
+        exhaustive: false,
+        stuck_is_violation: false,
+    }
 }
-pub fn stages(_ctx: &Ctx) -> Vec<Stage> {
-    vec![]
+
+// ------------------------------------------------------------------ closed-form problems
+
+#[derive(Clone, Debug)]
+enum Comp {
+    /// y' = l y
+    Lin { l: f64 },
+    /// y' = (a0 + a1 cos wt + a2 sin wt) y
+    TimeVar { a0: f64, a1: f64, a2: f64, w: f64 },
+    /// y' = -2 s t y
+    Gauss { s: f64 },
+    /// y' = r y (1 - y)
+    Logistic { r: f64 },
+    /// y' = y^2 cos t
+    Blow,
 }
-pub fn thresholds(_ctx: &Ctx, _rep: &Report) -> Vec<Threshold> {
-    vec![Threshold { what: "check not built".into(), required: 1.0, observed: 0.0 }]
+
+impl Comp {
+    fn f(&self, t: f64, y: f64) -> f64 {
+        match *self {
+            Comp::Lin { l } => l * y,
+            Comp::TimeVar { a0, a1, a2, w } => (a0 + a1 * (w * t).cos() + a2 * (w * t).sin()) * y,
+            Comp::Gauss { s } => -2.0 * s * t * y,
+            Comp::Logistic { r } => r * y * (1.0 - y),
+            Comp::Blow => y * y * t.cos(),
+        }
+    }
+    fn exact(&self, t0: f64, y0: f64, t: f64) -> f64 {
+        match *self {
+            Comp::Lin { l } => y0 * (l * (t - t0)).exp(),
+            Comp::TimeVar { a0, a1, a2, w } => {
+                let i = a0 * (t - t0) + a1 / w * ((w * t).sin() - (w * t0).sin()) - a2 / w * ((w * t).cos() - (w * t0).cos());
+                y0 * i.exp()
+            }
+            Comp::Gauss { s } => y0 * (-s * (t * t - t0 * t0)).exp(),
+            Comp::Logistic { r } => 1.0 / (1.0 + (1.0 / y0 - 1.0) * (-r * (t - t0)).exp()),
+            Comp::Blow => 1.0 / (1.0 / y0 - (t.sin() - t0.sin())),
+        }
+    }
+    /// second derivative of the exact solution at (t, y)
+    fn ypp(&self, t: f64, y: f64) -> f64 {
+        match *self {
+            Comp::Lin { l } => l * l * y,
+            Comp::TimeVar { a0, a1, a2, w } => {
+                let a = a0 + a1 * (w * t).cos() + a2 * (w * t).sin();
+                let ap = -a1 * w * (w * t).sin() + a2 * w * (w * t).cos();
+                (ap + a * a) * y
+            }
+            Comp::Gauss { s } => (-2.0 * s + 4.0 * s * s * t * t) * y,
+            Comp::Logistic { r } => r * r * y * (1.0 - y) * (1.0 - 2.0 * y),
+            Comp::Blow => 2.0 * y * y * y * t.cos() * t.cos() - y * y * t.sin(),
+        }
+    }
+    /// Lipschitz constant in y on the interval and solution range
+    fn lip(&self, t0: f64, t1: f64) -> f64 {
+        match *self {
+            Comp::Lin { l } => l.abs(),
+            Comp::TimeVar { a0, a1, a2, .. } => a0.abs() + a1.abs() + a2.abs(),
+            Comp::Gauss { s } => 2.0 * s * t0.abs().max(t1.abs()),
+            Comp::Logistic { r } => r * 1.2,
+            Comp::Blow => 1.8,
+        }
+    }
+    fn to_json(&self) -> J {
+        J::from(format!("{:?}", self))
+    }
+}
+
+/// z = Q y, y_i scalar closed-form components
+#[derive(Clone, Debug)]
+struct Stack {
+    comps: Vec<Comp>,
+    q: Vec<f64>, // row-major n x n orthogonal
+    y0: Vec<f64>, // component initial values
+    t0: f64,
+}
+
+fn random_orthogonal(rng: &mut Rng, n: usize) -> Vec<f64> {
+    let mut q = vec![0.0; n * n];
+    for i in 0..n {
+        q[i * n + i] = 1.0;
+    }
+    for _ in 0..(2 * n) {
+        if n < 2 {
+            break;
+        }
+        let i = rng.below(n);
+        let mut j = rng.below(n);
+        if i == j {
+            j = (j + 1) % n;
+        }
+        let th = rng.r(0.0, 6.283);
+        let (c, s) = (th.cos(), th.sin());
+        for k in 0..n {
+            let a = q[i * n + k];
+            let b = q[j * n + k];
+            q[i * n + k] = c * a - s * b;
+            q[j * n + k] = s * a + c * b;
+        }
+    }
+    q
+}
+
+impl Stack {
+    fn n(&self) -> usize {
+        self.comps.len()
+    }
+    fn mix(&self, y: &[f64]) -> Vec<f64> {
+        let n = self.n();
+        (0..n).map(|i| (0..n).map(|j| self.q[i * n + j] * y[j]).sum()).collect()
+    }
+    fn unmix(&self, z: &[f64]) -> Vec<f64> {
+        let n = self.n();
+        (0..n).map(|j| (0..n).map(|i| self.q[i * n + j] * z[i]).sum()).collect()
+    }
+    fn z0(&self) -> Vec<f64> {
+        self.mix(&self.y0)
+    }
+    fn exact(&self, t: f64) -> Vec<f64> {
+        let y: Vec<f64> = self.comps.iter().zip(&self.y0).map(|(c, y0)| c.exact(self.t0, *y0, t)).collect();
+        self.mix(&y)
+    }
+    fn lip(&self, t1: f64) -> f64 {
+        self.comps.iter().map(|c| c.lip(self.t0, t1)).fold(0.05, f64::max)
+    }
+    fn m2(&self, t1: f64) -> f64 {
+        let mut m: f64 = 0.0;
+        for k in 0..=1000 {
+            let t = self.t0 + (t1 - self.t0) * k as f64 / 1000.0;
+            let v: Vec<f64> = self.comps.iter().zip(&self.y0).map(|(c, y0)| c.ypp(t, c.exact(self.t0, *y0, t))).collect();
+            m = m.max(norm2(&v));
+        }
+        m * 1.001
+    }
+    fn gen(rng: &mut Rng, n: usize) -> Stack {
+        let t0 = rng.r(-1.0, 1.0);
+        let mut comps = vec![];
+        let mut y0 = vec![];
+        for _ in 0..n {
+            match rng.below(5) {
+                0 => {
+                    comps.push(Comp::Lin { l: rng.r(-2.0, 0.6) });
+                    y0.push(rng.r(0.3, 1.0) * rng.sign());
+                }
+                1 => {
+                    comps.push(Comp::TimeVar { a0: rng.r(-1.0, 0.2), a1: rng.r(-1.0, 1.0), a2: rng.r(-1.0, 1.0), w: rng.r(0.5, 3.0) });
+                    y0.push(rng.r(0.3, 1.0) * rng.sign());
+                }
+                2 => {
+                    comps.push(Comp::Gauss { s: rng.r(0.2, 1.0) });
+                    y0.push(rng.r(0.3, 1.0) * rng.sign());
+                }
+                3 => {
+                    comps.push(Comp::Logistic { r: rng.r(0.5, 2.5) });
+                    y0.push(rng.r(0.1, 0.9));
+                }
+                _ => {
+                    comps.push(Comp::Blow);
+                    y0.push(rng.r(0.1, 0.3) * rng.sign());
+                }
+            }
+        }
+        let q = random_orthogonal(rng, n);
+        Stack { comps, q, y0, t0 }
+    }
+    fn to_json(&self) -> J {
+        J::obj().set("kind", "stack").set("components", J::Arr(self.comps.iter().map(|c| c.to_json()).collect())).set("Q", J::fs(&self.q)).set("y0_components", J::fs(&self.y0)).set("t0", self.t0)
+    }
+}
+
+impl Rhs<f64> for Stack {
+    fn dim(&self) -> usize {
+        self.n()
+    }
+    fn eval(&self, t: f64, z: &[f64], out: &mut [f64]) {
+        let y = self.unmix(z);
+        let f: Vec<f64> = self.comps.iter().zip(&y).map(|(c, yv)| c.f(t, *yv)).collect();
+        let m = self.mix(&f);
+        out.copy_from_slice(&m);
+    }
+}
+
+/// y' = A y, A = U diag(l) U^H with U unitary (real Givens rotations times diagonal phases)
+#[derive(Clone, Debug)]
+struct ComplexLinear {
+    n: usize,
+    lam: Vec<C64>,
+    u: Vec<C64>, // row-major
+    a: Vec<C64>,
+    y0: Vec<C64>,
+    t0: f64,
+}
+
+impl ComplexLinear {
+    fn gen(rng: &mut Rng, n: usize) -> ComplexLinear {
+        let lam: Vec<C64> = (0..n).map(|_| C64::new(rng.r(-1.5, 0.3), rng.r(-2.0, 2.0))).collect();
+        let q = random_orthogonal(rng, n);
+        let ph: Vec<C64> = (0..n).map(|_| C64::from_polar(1.0, rng.r(0.0, 6.283))).collect();
+        let mut u = vec![C64::new(0.0, 0.0); n * n];
+        for i in 0..n {
+            for j in 0..n {
+                u[i * n + j] = ph[j] * q[i * n + j];
+            }
+        }
+        let mut a = vec![C64::new(0.0, 0.0); n * n];
+        for i in 0..n {
+            for j in 0..n {
+                let mut s = C64::new(0.0, 0.0);
+                for k in 0..n {
+                    s += u[i * n + k] * lam[k] * u[j * n + k].conj();
+                }
+                a[i * n + j] = s;
+            }
+        }
+        let y0 = (0..n).map(|_| C64::new(rng.r(-1.0, 1.0), rng.r(-1.0, 1.0))).collect();
+        ComplexLinear { n, lam, u, a, y0, t0: rng.r(-1.0, 1.0) }
+    }
+    fn exact(&self, t: f64) -> Vec<C64> {
+        let n = self.n;
+        // c = U^H y0 ; y = U diag(e^{l (t-t0)}) c
+        let c: Vec<C64> = (0..n).map(|k| (0..n).map(|i| self.u[i * n + k].conj() * self.y0[i]).sum::<C64>() * (self.lam[k] * (t - self.t0)).exp()).collect();
+        (0..n).map(|i| (0..n).map(|k| self.u[i * n + k] * c[k]).sum()).collect()
+    }
+    fn lip(&self) -> f64 {
+        self.lam.iter().map(|l| l.norm()).fold(0.05, f64::max)
+    }
+    fn to_json(&self) -> J {
+        let fl = |v: &[C64]| J::Arr(v.iter().map(|c| J::fs(&[c.re, c.im])).collect());
+        J::obj().set("kind", "complex-linear").set("n", self.n).set("lambda", fl(&self.lam)).set("A", fl(&self.a)).set("y0", fl(&self.y0)).set("t0", self.t0)
+    }
+}
+
+impl Rhs<C64> for ComplexLinear {
+    fn dim(&self) -> usize {
+        self.n
+    }
+    fn eval(&self, _t: f64, y: &[C64], out: &mut [C64]) {
+        let n = self.n;
+        for i in 0..n {
+            out[i] = (0..n).map(|j| self.a[i * n + j] * y[j]).sum();
+        }
+    }
+}
+
+/// the same system written as a real system of dimension 2n: z = [Re y; Im y]
+struct RealEquivalent<'a>(&'a ComplexLinear);
+impl<'a> Rhs<f64> for RealEquivalent<'a> {
+    fn dim(&self) -> usize {
+        2 * self.0.n
+    }
+    fn eval(&self, _t: f64, z: &[f64], out: &mut [f64]) {
+        let n = self.0.n;
+        for i in 0..n {
+            let mut re = 0.0;
+            let mut im = 0.0;
+            for j in 0..n {
+                let a = self.0.a[i * n + j];
+                re += a.re * z[j] - a.im * z[n + j];
+                im += a.im * z[j] + a.re * z[n + j];
+            }
+            out[i] = re;
+            out[n + i] = im;
+        }
+    }
+}
+
+fn to_real(v: &[C64]) -> Vec<f64> {
+    v.iter().map(|c| c.re).chain(v.iter().map(|c| c.im)).collect()
+}
+
+// ------------------------------------------------------------------ oracle
+
+fn item_bound(solver: Solver, tol: f64, lip: f64, i: usize, dt: f64) -> f64 {
+    let k = k_const(solver);
+    if solver.is_bdf() {
+        k * tol * (i as f64 + 1.0) * (lip * dt).exp()
+    } else {
+        k * tol * ((lip * dt).exp() - 1.0) / lip
+    }
+}
+
+/// judge one rung; returns the worst absolute error or None when the rung is inconclusive/violated
+#[allow(clippy::too_many_arguments)]
+fn judge_rung(rep: &mut Report, solver: Solver, cfg: &Cfg, lip: f64, m2: f64, pts: &[(f64, Vec<f64>)], clean: bool, exact: &dyn Fn(f64) -> Vec<f64>, case: &dyn Fn() -> J, tag: &str) -> Option<f64> {
+    let sname = solver.name();
+    if !clean {
+        rep.inconclusive("err-or-budget(C05)");
+        return None;
+    }
+    let mut worst: f64 = 0.0;
+    for (i, (t, y)) in pts.iter().enumerate() {
+        let ex = exact(*t);
+        if ex.len() != y.len() || !y.iter().all(|v| v.is_finite()) {
+            rep.inconclusive("malformed-path(C01)");
+            return None;
+        }
+        let err = dist2(y, &ex);
+        let floor = 64.0 * EPS * (1.0 + norm2(&ex)) * (1.0 + i as f64).sqrt();
+        let dt = *t - cfg.t0;
+        let bound = if solver == Solver::Euler { 1.05 * cfg.dt_max * m2 / (2.0 * lip) * ((lip * dt).exp() - 1.0) } else { item_bound(solver, cfg.tol, lip, i, dt) };
+        let ratio = (err - floor).max(0.0) / bound.max(1e-300);
+        rep.max(&format!("{}/{}error_over_bound", sname, tag), ratio);
+        worst = worst.max(err);
+        if !(err <= bound + floor) {
+            let what = if solver == Solver::Euler { format!("step {:e}", cfg.dt_max) } else { format!("tol {:e}", cfg.tol) };
+            rep.violation(
+                &format!("{}/{}global-error", sname, tag),
+                case().set("rung", cfg.to_json()),
+                format!("item {} at t={:.6e}: distance to the closed-form solution {:e} exceeds the bound {:e} ({}, L={:.3}, elapsed {:.3})", i, t, err, bound, what, lip, dt),
+            );
+            return None;
+        }
+    }
+    Some(worst)
+}
+
+fn ladder_tols() -> [f64; 8] {
+    [1e-3, 1e-4, 1e-5, 1e-6, 1e-7, 1e-8, 1e-9, 1e-10]
+}
+
+fn real_ladder(rep: &mut Report, solver: Solver, st: &Stack, span_l: f64, mode: DimMode, h0: f64) {
+    let sname = solver.name();
+    let t1_guess = st.t0 + span_l; // refined below with L
+    let lip = st.lip(t1_guess + 3.0);
+    let t1 = st.t0 + span_l / lip;
+    let lip = st.lip(t1);
+    let m2 = st.m2(t1);
+    let z0 = st.z0();
+    let case = || J::obj().set("solver", sname).set("mode", format!("{:?}", mode)).set("problem", st.to_json()).set("t1", t1).set("L", lip);
+    let exact = |t: f64| st.exact(t);
+    let mut errs = vec![];
+    let rungs: Vec<Cfg> = if solver == Solver::Euler {
+        (0..7).map(|k| { let h = h0 / lip / (1u32 << k) as f64; Cfg { t0: st.t0, t1, dt_min: h, dt_max: h, tol: 1.0 } }).collect()
+    } else {
+        ladder_tols().iter().map(|tol| { let dt_max = dtmax_for(solver, lip, *tol, 0.9); Cfg { t0: st.t0, t1, dt_min: dt_max * 1e-7, dt_max, tol: *tol } }).collect()
+    };
+    for cfg in &rungs {
+        let out = solve_real(solver, cfg, &z0, st, &Opts { budget: 20_000_000, max_items: 2_000_000, mode, ..Default::default() });
+        rep.eval();
+        rep.count(&format!("{}/rungs", sname), 1);
+        if out.panic.is_some() || out.build_err.is_some() {
+            rep.violation(&format!("{}/panic-or-rejected", sname), case().set("rung", cfg.to_json()), format!("{:?} {:?}", out.panic, out.build_err));
+            return;
+        }
+        match judge_rung(rep, solver, cfg, lip, m2, &out.ok_points(), out.clean(), &exact, &case, "") {
+            Some(w) => errs.push(w),
+            None => return,
+        }
+    }
+    finish_ladder(rep, solver, &errs, &case, CaseHash::new("c04-real").u(solver.idx() as u64).fs(&st.q).fs(&st.y0).f(t1).0);
+}
+
+fn finish_ladder(rep: &mut Report, solver: Solver, errs: &[f64], case: &dyn Fn() -> J, hash: u64) {
+    rep.count(&format!("{}/ladders_completed", solver.name()), 1);
+    if errs.len() >= 2 && errs[errs.len() - 1] * 10.0 <= errs[0] {
+        rep.nontrivial(hash);
+        rep.count(&format!("{}/ladders_with_10x_decrease", solver.name()), 1);
+        if rep.wants_sample() {
+            rep.sample(case().set("worst_error_per_rung", J::fs(errs)));
+        }
+    }
+}
+
+fn complex_ladder(rep: &mut Report, solver: Solver, p: &ComplexLinear, span_l: f64, h0: f64) {
+    let sname = solver.name();
+    let lip = p.lip();
+    let t1 = p.t0 + span_l / lip;
+    let case = || J::obj().set("solver", sname).set("problem", p.to_json()).set("t1", t1).set("L", lip);
+    let exact_r = |t: f64| to_real(&p.exact(t));
+    // |y''| = |A^2 y| <= L^2 |y|, |y| <= e^{max Re l * dt} |y0|
+    let growth = p.lam.iter().map(|l| l.re).fold(0.0, f64::max);
+    let m2 = lip * lip * norm2(&to_real(&p.y0)) * (growth * (t1 - p.t0)).exp() * 1.001;
+    let req = RealEquivalent(p);
+    let y0r = to_real(&p.y0);
+    let mut errs = vec![];
+    let rungs: Vec<Cfg> = if solver == Solver::Euler {
+        (0..6).map(|k| { let h = h0 / lip / (1u32 << k) as f64; Cfg { t0: p.t0, t1, dt_min: h, dt_max: h, tol: 1.0 } }).collect()
+    } else {
+        [1e-3, 1e-5, 1e-7, 1e-9, 1e-10].iter().map(|tol| { let dt_max = dtmax_for(solver, lip, *tol, 0.9); Cfg { t0: p.t0, t1, dt_min: dt_max * 1e-7, dt_max, tol: *tol } }).collect()
+    };
+    for cfg in &rungs {
+        let opts = Opts { budget: 20_000_000, max_items: 2_000_000, mode: DimMode::Dynamic, ..Default::default() };
+        let oc = solve_complex(solver, cfg, &p.y0, p, &opts);
+        let or = solve_real(solver, cfg, &y0r, &req, &opts);
+        rep.evals(2);
+        rep.count(&format!("{}/complex_rungs", sname), 1);
+        if oc.panic.is_some() || oc.build_err.is_some() || or.panic.is_some() || or.build_err.is_some() {
+            rep.violation(&format!("{}/complex/panic-or-rejected", sname), case().set("rung", cfg.to_json()), format!("{:?} {:?} {:?} {:?}", oc.panic, oc.build_err, or.panic, or.build_err));
+            return;
+        }
+        let pc: Vec<(f64, Vec<f64>)> = oc.ok_points().iter().map(|(t, y)| (*t, to_real(y))).collect();
+        let pr = or.ok_points();
+        let wc = judge_rung(rep, solver, cfg, lip, m2, &pc, oc.clean(), &exact_r, &case, "complex/");
+        let wr = judge_rung(rep, solver, cfg, lip, m2, &pr, or.clean(), &exact_r, &case, "real-equivalent/");
+        let (wc, _wr) = match (wc, wr) {
+            (Some(a), Some(b)) => (a, b),
+            _ => return,
+        };
+        errs.push(wc);
+        // "as accurately as the equivalent real system". The two runs take the same decisions, but
+        // their error norms are rounded differently (complex modulus vs real 2n-vector) and the
+        // step controller amplifies that, so after thousands of steps the paths drift apart
+        // (observed: times by 1e-9, states by 3e-9): item-by-item equality is not a property of
+        // correct code. What is compared instead: path lengths, and the worst errors of the two
+        // runs, which must be within a factor 2 of each other above the rounding floor (observed 1.0001).
+        let nc_pts = pc.len() as f64;
+        let nr_pts = pr.len() as f64;
+        rep.max(&format!("{}/complex_vs_real_length_ratio", sname), (nc_pts / nr_pts).max(nr_pts / nc_pts));
+        if !((nc_pts - nr_pts).abs() <= 0.05 * nr_pts + 3.0) {
+            rep.violation(&format!("{}/complex-path-length-differs-from-real-system", sname), case().set("rung", cfg.to_json()), format!("complex run yields {} points, the equivalent real system {}", nc_pts, nr_pts));
+            return;
+        }
+        let fl = 1e-12 * (1.0 + norm2(&y0r)) * (1.0 + nr_pts).sqrt();
+        let ratio = (wc + fl) / (_wr + fl);
+        rep.max(&format!("{}/complex_over_real_worst_error", sname), ratio);
+        rep.max(&format!("{}/real_over_complex_worst_error", sname), 1.0 / ratio);
+        rep.count("complex_vs_real_compared", 1);
+        if !(ratio <= 2.0 && ratio >= 0.5) {
+            rep.violation(
+                &format!("{}/complex-less-accurate-than-real-system", sname),
+                case().set("rung", cfg.to_json()),
+                format!("worst error of the complex run {:e}, of the equivalent real system {:e} (ratio {:.2}, allowed 0.5..2 above the floor {:e})", wc, _wr, ratio, fl),
+            );
+            return;
+        }
+    }
+    finish_ladder(rep, solver, &errs, &case, CaseHash::new("c04-complex").u(solver.idx() as u64).fs(&to_real(&p.y0)).fs(&to_real(&p.lam)).f(t1).0);
+}
+
+fn static_vs_dynamic(rep: &mut Report, solver: Solver, st: &Stack, span_l: f64, tol: f64) {
+    let sname = solver.name();
+    let lip = st.lip(st.t0 + span_l + 3.0);
+    let t1 = st.t0 + span_l / lip;
+    let dt_max = if solver == Solver::Euler { 0.01 / lip } else { dtmax_for(solver, lip, tol, 0.9) };
+    let cfg = Cfg { t0: st.t0, t1, dt_min: dt_max * 1e-7, dt_max, tol };
+    let z0 = st.z0();
+    let a = solve_real(solver, &cfg, &z0, st, &Opts { mode: DimMode::Static, ..Default::default() });
+    let b = solve_real(solver, &cfg, &z0, st, &Opts { mode: DimMode::Dynamic, ..Default::default() });
+    rep.evals(2);
+    rep.count("static_vs_dynamic_pairs", 1);
+    let case = || J::obj().set("solver", sname).set("problem", st.to_json()).set("cfg", cfg.to_json());
+    if a.panic.is_some() || b.panic.is_some() || a.build_err.is_some() || b.build_err.is_some() {
+        rep.violation(&format!("{}/static-vs-dynamic/panic-or-rejected", sname), case(), format!("{:?} {:?} {:?} {:?}", a.panic, b.panic, a.build_err, b.build_err));
+        return;
+    }
+    let (pa, pb) = (a.ok_points(), b.ok_points());
+    if a.n_err() != b.n_err() || !((pa.len() as f64 - pb.len() as f64).abs() <= 0.05 * pb.len() as f64 + 3.0) {
+        rep.violation(&format!("{}/static-vs-dynamic/path-length", sname), case(), format!("static run: {} points, {} errors; dynamic run: {} points, {} errors", pa.len(), a.n_err(), pb.len(), b.n_err()));
+        return;
+    }
+    // same arithmetic on both sides; summation order inside nalgebra may differ between static and
+    // dynamic storage, and the step controller amplifies such rounding differences (observed
+    // 2e-11). "Up to rounding-level differences" is checked item by item for as long as the
+    // two runs' times coincide to 1e-7 dt_max: states must then agree to 1e-7 (1+|y|).
+    let exact_same = pa.len() == pb.len() && pa.iter().zip(&pb).all(|(x, y)| x.0 == y.0 && x.1 == y.1);
+    if exact_same {
+        rep.count("static_vs_dynamic_bit_identical", 1);
+    } else {
+        for (i, x) in pa.iter().enumerate() {
+            if let Some(y) = pb.get(i) {
+                if (x.0 - y.0).abs() <= 1e-7 * cfg.dt_max {
+                    let d = dist2(&x.1, &y.1) / (1.0 + norm2(&x.1));
+                    rep.max(&format!("{}/static_vs_dynamic_state_diff", sname), d);
+                    if !(d <= 1e-7) {
+                        rep.violation(&format!("{}/static-vs-dynamic/differs", sname), case(), format!("item {}: t {:.17e} vs {:.17e}, state distance {:e} (1+|y|)", i, x.0, y.0, d));
+                        return;
+                    }
+                } else {
+                    rep.count("static_vs_dynamic_time_drift_beyond_1e-7_dtmax", 1);
+                    break;
+                }
+            }
+        }
+    }
+    rep.nontrivial(CaseHash::new("c04-sd").u(solver.idx() as u64).fs(&st.q).fs(&st.y0).f(t1).f(tol).0);
+}
+
+pub fn stages(ctx: &Ctx) -> Vec<Stage> {
+    let seed = ctx.seed;
+    let mut st = vec![];
+    st.push(Stage::new("anchors", 7 * 4, move |i, rep| {
+        let solver = Solver::ALL[(i % 7) as usize];
+        let k = i / 7;
+        let mut rng = Rng::for_case(31337, "c04-anchor", k);
+        let s = Stack::gen(&mut rng, 1 + (k as usize) % 4);
+        real_ladder(rep, solver, &s, 2.0, if k % 2 == 0 { DimMode::Dynamic } else { DimMode::Static }, 0.05);
+    }));
+    let n = ctx.tier.pick(280, 2_800);
+    st.push(Stage::new("real-ladders", n, move |i, rep| {
+        let mut rng = Rng::for_case(seed, "c04-real", i);
+        let solver = Solver::ALL[(i % 7) as usize];
+        let n = 1 + rng.below(4);
+        let s = Stack::gen(&mut rng, n);
+        let span = rng.r(0.8, 3.0);
+        let mode = if rng.bool() { DimMode::Static } else { DimMode::Dynamic };
+        let h0 = rng.r(0.02, 0.1);
+        real_ladder(rep, solver, &s, span, mode, h0);
+    }));
+    let nc = ctx.tier.pick(140, 1_400);
+    st.push(Stage::new("complex-ladders", nc, move |i, rep| {
+        let mut rng = Rng::for_case(seed, "c04-complex", i);
+        let solver = Solver::ALL[(i % 7) as usize];
+        let n = 1 + rng.below(2);
+        let p = ComplexLinear::gen(&mut rng, n);
+        let span = rng.r(0.8, 3.0);
+        let h0 = rng.r(0.02, 0.1);
+        complex_ladder(rep, solver, &p, span, h0);
+    }));
+    let nsd = ctx.tier.pick(210, 7_000);
+    st.push(Stage::new("static-vs-dynamic", nsd, move |i, rep| {
+        let mut rng = Rng::for_case(seed, "c04-sd", i);
+        let solver = Solver::ALL[(i % 7) as usize];
+        let n = 1 + rng.below(4);
+        let s = Stack::gen(&mut rng, n);
+        let tol = rng.log10(-9.0, -3.0);
+        static_vs_dynamic(rep, solver, &s, rng.r(0.5, 2.5), tol);
+    }));
+    st
+}
+
+pub fn thresholds(ctx: &Ctx, rep: &Report) -> Vec<Threshold> {
+    let mut t = vec![];
+    for s in Solver::ALL {
+        t.push(Threshold { what: format!("{}: ladders completed", s.name()), required: ctx.tier.pick(30.0, 300.0), observed: rep.counter(&format!("{}/ladders_completed", s.name())) as f64 });
+        t.push(Threshold { what: format!("{}: ladders whose error fell >= 10x", s.name()), required: ctx.tier.pick(20.0, 200.0), observed: rep.counter(&format!("{}/ladders_with_10x_decrease", s.name())) as f64 });
+    }
+    t.push(Threshold { what: "complex-vs-real rung pairs compared".into(), required: ctx.tier.pick(200.0, 2_000.0), observed: rep.counter("complex_vs_real_compared") as f64 });
+    t.push(Threshold { what: "static-vs-dynamic pairs".into(), required: ctx.tier.pick(150.0, 5_000.0), observed: rep.counter("static_vs_dynamic_pairs") as f64 });
+    t
 }
